@@ -171,7 +171,7 @@ PROPS = {
             "the process-global result id counter is observed relative to a probe request at the start of each case",
         ],
         "assumptions": ["requests are handled serially (jsonrpc2 dispatch); the cache is process-global, cases run one after another"],
-        "explanation": "C17_delta for all tokenizers and all histories (any quoted id), C17_range / C17_decode_encode for all position-sorted token lists; tie on request histories over up to 3 documents; oracle: client reconstruction from the implementation's answers, range = filtered full, geometry (order, no overlap, inside line, legend, non-zero length) and lexeme coverage (code, quoted commodity, operator) of every full answer",
+        "explanation": "tokenizer transcribed on the lexer model and tied to the full answer of every content; C17_every_token_in_legend_and_nonempty for every byte string; C17_delta for all tokenizers and all histories (any quoted id), C17_range / C17_decode_encode for all position-sorted token lists; tie on request histories over up to 3 documents; oracle: client reconstruction from the implementation's answers, range = filtered full, geometry (order, no overlap, inside line, legend, non-zero length) and lexeme coverage (code, quoted commodity, operator) of every full answer",
     },
     "C10": {
         "n": {"quick": 2500, "thorough": 30000},
